@@ -71,7 +71,9 @@ def run(ctx):
     mc = {}
     built = {}
     gens = {}
-    jobs = [lambda: gens.setdefault("calls", ctx.tlc("EvmGasGen", cfg="EvmGasGen_calls.cfg", workers=2)),
+    jobs = [lambda: gens.setdefault("sstore", ctx.tlc("EvmGasState", cfg="EvmGasState.cfg" if quick else "EvmGasState_big.cfg", workers=2)),
+            lambda: gens.setdefault("xcases", ctx.tlc("EvmGasState", cfg="EvmGasState_x.cfg", workers=2)),
+            lambda: gens.setdefault("calls", ctx.tlc("EvmGasGen", cfg="EvmGasGen_calls.cfg", workers=2)),
             lambda: gens.setdefault("mem", ctx.tlc("EvmGasGen", cfg="EvmGasGen_mem.cfg", workers=2)),
             lambda: mc.setdefault("gas", ctx.tlc("EvmGas", cfg="EvmGas.cfg", workers=2, coverage=not quick)),
             lambda: built.setdefault("drv", ctx.build("c11"))]
@@ -97,6 +99,19 @@ def run(ctx):
     sp = os.path.join(ctx.scratch, "script.json")
     json.dump(script, open(sp, "w"))
 
+    # extension (exact gas of the state-access instructions): the SSTORE write sequences over the value lattice and
+    # the case lattices of account reads, call instructions and SELFDESTRUCT, as printed by EvmGasState
+    sscript = {"sstore": [], "x": []}
+    for raw in ctx.tlc_lines(gens["sstore"], "SSTORE"):
+        sscript["sstore"].append(json.loads(raw.strip()[1:-1].replace('\\"', '"')))
+    for raw in ctx.tlc_lines(gens["xcases"], "XCASE"):
+        sscript["x"].append(json.loads(raw.strip()[1:-1].replace('\\"', '"')))
+    if not sscript["sstore"] or not sscript["x"]:
+        raise Inconclusive("EvmGasState produced no cases")
+    ssp = os.path.join(ctx.scratch, "statescript.json")
+    json.dump(sscript, open(ssp, "w"))
+    state_cfgs = ["a"] if quick else ["a", "b"]
+
     # real runs: (config, runs, deep recursions, direct precompile calls per address)
     plan = [("a", 700, 4, 4), ("b", 300, 0, 1), ("c", 300, 0, 1)] if quick else \
            [("a", 8000, 8, 40), ("a", 8000, 4, 0), ("b", 7000, 4, 10), ("c", 7000, 4, 10)]
@@ -110,7 +125,14 @@ def run(ctx):
                      (["--script", sp] if k == 0 else []) + [
                       "--salt", str(k), "--config", cfg, "--jumptable", jt, "--deep", str(deep),
                      "--precompiles", str(pre), "--maxsteps", "200" if quick else "300"])
+    state_traces = []
+    for cfg in state_cfgs:
+        stp = os.path.join(ctx.scratch, "state_%s.ndjson" % cfg)
+        state_traces.append(stp)
+        argvs.append([drv, "--out", stp, "--scratch", os.path.join(ctx.scratch, "sts_%s" % cfg), "--config", cfg,
+                      "--statescript", ssp])
     outs = ctx.run_parallel(argvs, timeout=1500)
+    state_runs = sum(int(o.split("c11state: runs=")[1].split()[0]) for o in outs if "c11state: runs=" in o)
     tot, hist, maxdepth = parse_counts(outs)
     log("c11 drivers: %s maxdepth=%d" % (tot, maxdepth))
     log("c11 ends: %s" % hist["ENDS"])
@@ -132,6 +154,17 @@ def run(ctx):
     for tp, (n, bad) in zip(traces, results):
         total_events += n
         add_violations_from_bad(ctx, bad, tp, reset_event="Begin")
+    # the extension's traces: Inv.* restate C11's clauses, Ext.* are informational observations
+    xresults = threads([(lambda tp=tp: ctx.validate_trace("EvmGasStateTrace", tp, timeout=1500)) for tp in state_traces])
+    state_events, ext_counts = 0, {}
+    for tp, (n, bad) in zip(state_traces, xresults):
+        state_events += n
+        for b in bad:
+            ext_counts[b[2]] = ext_counts.get(b[2], 0) + 1
+        add_violations_from_bad(ctx, bad, tp, reset_event="XBegin")
+    if state_runs == 0 or state_events == 0:
+        raise Inconclusive("the state-access extension recorded nothing")
+    log("state-access extension: %d runs, %d events, observations %s" % (state_runs, state_events, ext_counts))
     samples = []
     with open(traces[0]) as f:
         want = ["Begin", "Enter", "Step", "Fault", "End"]
@@ -147,6 +180,17 @@ def run(ctx):
         "transitions": sum(r["generated"] for r in list(mc.values()) + list(gens.values())),
         "tlc_generated_call_sequences": len(script["calls"]),
         "tlc_generated_memory_cases": len(script["mem"]),
+        "extension_state_access": {
+            "rule_set_active": "Istanbul-era constants (SLOAD 800, account reads 700, CALL family 700 + 9000 value + 25000 new account, "
+                               "63/64 forwarding, 2300 stipend), SSTORE flat 20000 without net metering / refunds / sentry, EIP-2929 not "
+                               "in the jump table, refund counter written only by SELFDESTRUCT and never redeemed; x30 under Proposal026",
+            "sstore_write_sequences": len(sscript["sstore"]),
+            "case_lattice_points": len(sscript["x"]),
+            "configurations": state_cfgs,
+            "runs_on_real_interpreter": state_runs,
+            "events_recomputed": state_events,
+            "observation_counts": ext_counts,
+        },
         "traces_validated_against_impl": tot.get("runs", 0) + tot.get("precompile_calls", 0),
         "events_validated": total_events,
         "interpreter_steps_executed": tot.get("steps", 0),
